@@ -1,3 +1,89 @@
+"""C01 - trajectory is the solution of the point-mass equations of motion."""
+import time
+
 LEVEL = 'other'
-EXPLANATION = 'C01 (partial: under construction)'
-EXTRA = []
+EXPLANATION = ('Deductive part (all shots, all iterations): the integration loop of TrajectoryCalc._integrate is cut at an '
+               'inductive invariant; for an ARBITRARY state at the head of an iteration the step clauses show that the '
+               'state at the end of the body is exactly time + dt, v - dt (u * rho(alt0+y) * |u| * D(|u|/c(alt0+y)) - g), '
+               'p + dt v\' with u = v - wind in force at the current distance, dt = calc_step / max(1, |u|), rho, c the '
+               'atmosphere contract at the CURRENT altitude and D the drag_by_mach contract (drag table and BC): i.e. one '
+               'step of the semi-implicit Euler map of the stated vector field, hence consistent with it (first order). '
+               'The entry clause gives the initial state (muzzle displaced by the canted sight height, launched along the '
+               'barrel direction at muzzle velocity); _init_trajectory harnesses give barrel elevation/azimuth from look, '
+               'zero, relative and cant angles. Convergence from consistency is the Lax/Dahlquist theorem (assumed, A-NUM). '
+               'Bounded stand-ins: Richardson step-halving on sampled shots, and the closed-form vacuum parabola.')
+TEXT = ('proof of consistency (every step from every state is the stated Euler map; initial state; wind/density/Mach '
+        'arguments are those of the current position) + assumed convergence theorem + bounded error-constant and vacuum '
+        'checks: the headline clause (convergence to the exact solution) is not decided deductively, hence "other"')
+NOTE = ('A-REAL, A-PY, A-LOG, A-LIBM, A-NUM (a consistent one-step method converges); hypothesis H-fwd (the projectile keeps '
+        'moving down-range: part of the statement\'s antecedent); callee contracts assumed at call sites are each verified '
+        'on their own; trusted: z3 4.8.12/5.1, cvc5, CPython ast, the VC generator')
+ASSUMES = ['A-REAL', 'A-PY', 'A-LOG', 'A-LIBM', 'TOOLS']
+EXTRA_ASSUMPTIONS = ['A-NUM: a consistent one-step method for an ODE with locally Lipschitz right-hand side converges with the '
+                     'order of its local error (Lax/Dahlquist) - assumed, not proved',
+                     'H-fwd: the projectile keeps moving down-range (antecedent of the property), assumed at every step']
+NOT_DECIDED = ['convergence to the exact ODE solution as the step is refined (A-NUM)',
+               'error at the default step <= small multiple of the step-halving change: bounded stand-in only',
+               'vacuum closed-form parabola: bounded stand-in only (the vacuum invariant with ghost sum dt^2 was not built)']
+EXTRA = ['bounded_step_halving', 'bounded_vacuum_parabola']
+
+
+def bounded_step_halving(tier, seed):
+    """|r_h - r_inf| <= 4 |r_h - r_{h/2}| with r_inf by Richardson from h/2, h/4 (first-order method)"""
+    import random
+    from pyvc.bounded import pkg, std_shot, mk
+    from pyvc.scan import result
+    P = pkg()
+    rng = random.Random(1000 + seed)
+    t0 = time.time()
+    n = 6 if tier == 'quick' else 30
+    bad = None
+    cases = 0
+    for k in range(n):
+        shot = std_shot(P, rng, look_deg=rng.choice([0, 0, 5, -5]),
+                        winds=[P.Wind(P.Unit.MPH(rng.uniform(0, 15)), P.Unit.Degree(rng.uniform(0, 360)))])
+        rows = {}
+        for h in (0.5, 0.25, 0.125):
+            c = P.Calculator(_config={'max_calc_step_size_feet': h})
+            rows[h] = c.fire(shot, P.Unit.Yard(600), P.Unit.Yard(200)).trajectory
+        for i in range(1, len(rows[0.5])):
+            for f in ('height', 'windage', 'velocity'):
+                a, b, c2 = [(getattr(rows[h][i], f)).raw_value for h in (0.5, 0.25, 0.125)]
+                rinf = 2 * c2 - b
+                cases += 1
+                if abs(a - rinf) > 4 * abs(a - b) + 1e-7 * max(1.0, abs(a)):
+                    bad = f'shot #{k} row {i} {f}: r_h={a}, r_h/2={b}, r_h/4={c2}'
+    return result('bounded:step-halving', [mk('error-at-default-step-within-4x-the-halving-change', bad is None,
+                  'error at the 0.5 ft step <= 4 x change on halving (Richardson reference from h/2, h/4)', cases, t0, bad)],
+                  t0, props=('C01',))
+
+
+def bounded_vacuum_parabola(tier, seed):
+    import math
+    import random
+    from pyvc.bounded import pkg, mk
+    from pyvc.scan import result
+    P = pkg()
+    rng = random.Random(2000 + seed)
+    t0 = time.time()
+    bad = None
+    cases = 0
+    for k in range(4 if tier == 'quick' else 20):
+        mv = rng.uniform(500, 3000)
+        el = rng.uniform(0.1, 8)
+        shot = P.Shot(P.Weapon(0, 0), P.Ammo(P.DragModel(0.3, P.TableG7), P.Unit.FPS(mv)), relative_angle=P.Unit.Degree(el),
+                      atmo=P.Vacuum())
+        tr = P.Calculator().fire(shot, P.Unit.Foot(3000), P.Unit.Foot(1000)).trajectory
+        g = 32.17405
+        for r in tr[1:]:
+            x = r.distance >> P.Unit.Foot
+            t = x / (mv * math.cos(math.radians(el)))
+            y = mv * math.sin(math.radians(el)) * t - 0.5 * g * t * t
+            cases += 1
+            # discretisation term 1/2 g sum dt^2 <= 1/2 g t dt_max, dt_max = 0.25 ft / speed
+            tol = 0.5 * g * t * (0.25 / (mv * 0.5)) + 1e-6
+            if abs((r.height >> P.Unit.Foot) - y) > tol or abs(r.time - t) > 0.25 / (mv * 0.5) + 1e-9:
+                bad = f'mv={mv}, elevation={el} deg, x={x}: height {r.height >> P.Unit.Foot} vs parabola {y}'
+    return result('bounded:vacuum', [mk('vacuum-trajectory-is-the-closed-form-parabola', bad is None,
+                  'vacuum rows vs closed-form parabola under standard gravity (within 1/2 g t dt_max)', cases, t0, bad)],
+                  t0, props=('C01',))
